@@ -99,6 +99,31 @@ def hook_models():
     out.append(('recognize-raises', {'classes': [{'name': 'K', 'params': [('a', 'int')],
                                                   'hooks': {'recognize': [('raise', 'RecognitionError')]}}],
                                      'root': ('union', ['int', ('cls', 'K')])}))
+    # hooks that look at attribute VALUES (discriminators, conversions): the scalar may be unparsable
+    for val in (1, 'k1', 1.5, True, None, 0):
+        for op in ('require_attr_value', 'require_attr_value_not'):
+            out.append(('recognize-reads-value', {'classes': [{'name': 'K', 'params': [('kind', 'any', None), ('x', 'int', 0)],
+                                                               'hooks': {'recognize': [(op, 'kind', val)]}}],
+                                                  'root': ('list', ('cls', 'K'))}))
+    for t in ('int', 'float', 'bool', 'date', ('cls', 'In'), ('list', 'int')):
+        out.append(('recognize-reads-value', {'classes': catalog.BASE + [{'name': 'K', 'params': [('kind', 'any', None), ('x', 'int', 0)],
+                                                                          'hooks': {'recognize': [('require_attr', 'kind', t)]}}],
+                                              'root': ('cls', 'K')}))
+    for op in (('attr_get_value', 'kind'), ('attr_has_type', 'kind', 'int'), ('remove_defaults',)):
+        for rec in (None, [('permissive',)]):
+            hooks = {'savorize': [('only_mapping',), op]}
+            if rec:
+                hooks['recognize'] = rec
+            out.append(('savorize-reads-value', {'classes': [{'name': 'K', 'params': [('kind', 'any', 5), ('x', 'int', 0)], 'hooks': hooks}],
+                                                 'root': ('dict', 'str', ('cls', 'K'))}))
+    # structural helpers behind a permissive recogniser (the attribute can then be of any shape)
+    for op in (('map_to_seq', 'kind', 'id', 'v'), ('seq_to_map', 'kind', 'id', 'v'), ('index_to_map', 'kind', 'id', 'v'),
+               ('map_to_index', 'kind', 'id', 'v'), ('map_to_seq', 'kind', 'id', None), ('dashes_to_unders',), ('unders_to_dashes',),
+               ('rename', 'kind', 'x')):
+        out.append(('savorize-helper-permissive', {'classes': [{'name': 'K', 'params': [('kind', 'any', None), ('x', 'any', None)],
+                                                                'hooks': {'savorize': [('only_mapping',), op], 'recognize': [('permissive',)]},
+                                                                'extra': True}],
+                                                   'root': ('cls', 'K')}))
     # savorize helpers that fail on the node they get
     for op in (('get_attr', 'missing'), ('map_to_seq', 'a', 'id', 'v'), ('seq_to_map', 'a', 'id', 'v'),
                ('seq_to_map', 'a', 'id', None), ('index_to_map', 'a', 'id', 'v'), ('map_to_index', 'a', 'id', 'v'),
@@ -255,6 +280,31 @@ def run_unit(unit, tier):
         return res
     fam, spec = hook_models()[unit[1]]
     case = loadcase.Case(spec)
+    # valid documents with every nasty scalar / collection at every node, and structured attribute values
+    base = docs.valid(spec, spec['root'])[:4]
+    shapes = [Q([M([(S('str', 'id'), S('str', 'a')), (S('str', 'v'), S('int', '1'))])]), M([(S('str', 'a'), M([(S('str', 'v'), S('int', '1'))]))]),
+              M([(Q([S('str', 'a')]), S('int', '1'))]), M([(S('str', 'a'), S('int', '1')), (M([]), M([]))]), Q([S('int', '1'), Q([])]),
+              M([(S('int', '1'), M([(S('str', 'id'), S('int', '2'))]))])]
+    extra_trees = []
+    for t in base:
+        for path, node in docs.positions(t):
+            if not docs.is_key_path(path):
+                for sh in shapes:
+                    extra_trees.append(('shape', docs.replace(t, path, sh)))
+    seen = set()
+    for kind, mt in [x for t in base for x in nasty_mutations(t)] + extra_trees:
+        if mt in seen:
+            continue
+        seen.add(mt)
+        res.states += 1
+        res.transitions += 1
+        try:
+            text = case.R.render(mt)
+        except (yaml.YAMLError, AttributeError, TypeError):
+            res.hist['unrenderable'] += 1
+            continue
+        if observe(case, text, res, fam + ':' + kind[:5], spec) != 'ok':
+            res.nontrivial += 1
     for kind, site, tree in loadcase.document_set(spec, case, tier, tags=['!K', '!Unknown'], tiny_n=3):
         res.states += 1
         res.transitions += 1
